@@ -176,7 +176,7 @@ typedef DiscretisedDensity<3, float> target_type;
 // to the default it will be reset to); the rewriting is counted and switched off by VERIF_NO_EXCLUDE=1.
 const char* const SIG_E1 = "C18:backprojector:more-threads-than-at-set_up";
 //! set to true once the repair (work/fixes/C18_ext/01_*.diff) is committed in /repo: the class is then part of the normal search
-// ---- known finding E2 (DESIGN 12.9; found on /repo 66621e8da) -------------------------------------------------------------
+// ---- finding E2 (DESIGN 12.9; found on /repo 66621e8da; REPAIRED ece0d8fa4, exclusion off) -------------------------------------------------------------
 // The detector-pair tables of ProjDataInfoCylindricalNoArcCorr (uncompressed_view_tangpos_to_det1det2,
 // det1det2_to_uncompressed_view_tangpos; ProjDataInfoGenericNoArcCorr has the same members) are built on first use under
 // critical(PROJDATAINFOCYLINDRICALNOARCCORR_VIEWTANGPOS_TO_DETS / _DETS_TO_VIEWTANGPOS), but the IMPLICIT copy constructor
@@ -188,9 +188,14 @@ const char* const SIG_E1 = "C18:backprojector:more-threads-than-at-set_up";
 // detector-pair tables with one thread before the parallel region -- only the ring-difference tables then have their first use
 // next to the copies.  Counted in excluded_known; VERIF_NO_EXCLUDE=1 switches it off; the probe carries "prebuild": false.
 const char* const SIG_E2 = "C18:detector-pair-tables:copied-during-first-use";
+//! set to true once the repair is committed in /repo (ece0d8fa4): the class is then part of the normal search, the former probe is the
+//! regression input replays/C18/fixed_detector_pair_tables_copied_during_first_use.json
+const bool E2_REPAIRED = true;
 bool
 e2_exclusion_on()
 {
+  if (E2_REPAIRED)
+    return false;
   static const bool on = []() {
     const char* e = std::getenv("VERIF_NO_EXCLUDE");
     return !(e && *e && std::string(e) != "0");
